@@ -276,6 +276,7 @@ class Explorer:
         self.store = store
         self.workers = workers or min(16, os.cpu_count() or 4)
         self.deadline = deadline
+        self.conf_kw = conf_kw or {}
         self.base_root = P.scratch_root()
         self.template = build_template(check, variant, store, self.base_root, conf_kw)
         self.pool = mp.get_context("fork").Pool(self.workers, _worker_init, (check, variant, store, self.template, self.base_root))
@@ -498,7 +499,31 @@ def confirm_violations(ex, report):
             v["variant"] = ex.variant
             v["store"] = ex.store
             v["check"] = ex.check.ID
+            v["check_module"] = type(ex.check).__module__
+            v["check_class"] = type(ex.check).__name__
+            v["check_kwargs"] = getattr(ex.check, "kw", {})
+            v["conf_kw"] = ex.conf_kw
             report.add_violation(v)
         else:
             report.harness_errors.append("violation %s did not reproduce on replay (saw %r); history=%r action=%r" % (sig, seen, v["history"], v["action"]))
     report.harness_errors.extend(ex.stats["harness_errors"][:5])
+
+
+def replay_file(rec, verbose=True):
+    """plain re-execution of a replay record without the pool (tools/replay.py)"""
+    import importlib
+    mod = importlib.import_module(rec["check_module"])
+    check = getattr(mod, rec["check_class"])(**rec.get("check_kwargs", {}))
+    base_root = P.scratch_root()
+    try:
+        template = build_template(check, rec["variant"], rec["store"], base_root, rec.get("conf_kw"))
+        _worker_init(check, rec["variant"], rec["store"], template, base_root)
+
+        def lit(x):
+            return tuple(lit(y) for y in x) if isinstance(x, list) else x
+        v = {"history": [lit(a) for a in rec["history"]], "action": lit(rec["action"]) if rec["action"] is not None else None}
+        sig = _replay(v)
+        _W["ctx"].stop_shell()
+        return sig
+    finally:
+        shutil.rmtree(base_root, ignore_errors=True)
